@@ -155,6 +155,70 @@ fn write_minted(base: &str, tag: &str, der: &[u8]) -> Result<String, String> {
     Ok(format!("@{name}"))
 }
 
+/// Copy of the server certificate `base` whose subjectAltName is the single DNS name `name`
+/// (any length), signed again with `signer`.
+pub fn mint_san(base: &str, signer: &str, name: &str, tag: &str) -> Result<String, String> {
+    let chain = load_chain(base);
+    let der = chain.first().ok_or("no certificate")?.as_ref().to_vec();
+    let (_, h0, _) = der_tlv(&der, 0);
+    let (_, tbs_h, tbs_len) = der_tlv(&der, h0);
+    let tbs_content = &der[h0 + tbs_h..h0 + tbs_h + tbs_len];
+    let after_tbs = &der[h0 + tbs_h + tbs_len..];
+    let mut at = 0usize;
+    let mut elems: Vec<&[u8]> = vec![];
+    while at < tbs_content.len() {
+        let (_, h, l) = der_tlv(tbs_content, at);
+        elems.push(&tbs_content[at..at + h + l]);
+        at += h + l;
+    }
+    let ext_wrapper = *elems.last().ok_or("empty tbs")?;
+    if ext_wrapper[0] != 0xA3 {
+        return Err("no extensions".into());
+    }
+    let (_, wh, _) = der_tlv(ext_wrapper, 0);
+    let seq = &ext_wrapper[wh..];
+    let (_, sh, sl) = der_tlv(seq, 0);
+    let exts = &seq[sh..sh + sl];
+    // subjectAltName: OID 2.5.29.17 = 06 03 55 1D 11
+    const SAN_OID: [u8; 5] = [0x06, 0x03, 0x55, 0x1D, 0x11];
+    let mut at = 0usize;
+    let mut out_exts: Vec<u8> = vec![];
+    let mut found = false;
+    while at < exts.len() {
+        let (_, h, l) = der_tlv(exts, at);
+        let ext = &exts[at..at + h + l];
+        at += h + l;
+        if ext[h..].starts_with(&SAN_OID) {
+            found = true;
+            let names = der_wrap(0x30, &der_wrap(0x82, name.as_bytes()));
+            let mut content = SAN_OID.to_vec();
+            content.extend(der_wrap(0x04, &names));
+            out_exts.extend(der_wrap(0x30, &content));
+        } else {
+            out_exts.extend_from_slice(ext);
+        }
+    }
+    if !found {
+        return Err("subjectAltName not found".into());
+    }
+    let new_wrapper = der_wrap(0xA3, &der_wrap(0x30, &out_exts));
+    let mut new_tbs_content: Vec<u8> = vec![];
+    for e in &elems[..elems.len() - 1] {
+        new_tbs_content.extend_from_slice(e);
+    }
+    new_tbs_content.extend(new_wrapper);
+    let tbs = der_wrap(0x30, &new_tbs_content);
+    let sig = sign_tbs(signer, &tbs)?;
+    let (_, ah, al) = der_tlv(after_tbs, 0);
+    let alg = &after_tbs[..ah + al];
+    let mut bits = vec![0u8];
+    bits.extend(sig);
+    let mut body = tbs;
+    body.extend_from_slice(alg);
+    body.extend(der_wrap(0x03, &bits));
+    write_minted(base, tag, &der_wrap(0x30, &body))
+}
+
 fn der_wrap(tag: u8, content: &[u8]) -> Vec<u8> {
     let mut out = vec![tag];
     let n = content.len();
@@ -173,6 +237,12 @@ fn der_wrap(tag: u8, content: &[u8]) -> Vec<u8> {
 /// 8-character role "operator") in which that extension appears twice; `roles` gives the text of
 /// the first and the second copy (8 characters each). Signed again with `signer`.
 pub fn mint_two_roles(base: &str, signer: &str, roles: (&str, &str), tag: &str) -> Result<String, String> {
+    mint_roles(base, signer, &[roles.0, roles.1], tag)
+}
+
+/// the same with any number of copies of the role extension (one copy: the certificate of `base`
+/// with another role - same subject, same key, same everything else)
+pub fn mint_roles(base: &str, signer: &str, roles: &[&str], tag: &str) -> Result<String, String> {
     let chain = load_chain(base);
     let der = chain.first().ok_or("no certificate")?.as_ref().to_vec();
     let (_, h0, _) = der_tlv(&der, 0);
@@ -205,7 +275,7 @@ pub fn mint_two_roles(base: &str, signer: &str, roles: (&str, &str), tag: &str) 
         at += h + l;
         if ext.windows(6).any(|w| w == ROLE_OID_TAIL) {
             found = true;
-            for role in [roles.0, roles.1] {
+            for role in roles.iter().copied() {
                 if role.len() != 8 {
                     return Err("roles must have 8 characters".into());
                 }
